@@ -8,7 +8,7 @@ from vlib import tla_set
 def run(name, tier, seed):
     exe = vlib.build_harness("printer", ["printer.cxx"])
     q = tier == "quick"
-    consts = {"Depth": 2, "Leaves": tla_set(["expr", "decl", "fun", "arr"] if q else ["expr", "decl", "break", "return", "fun", "arr"]),
+    consts = {"Depth": 2, "Leaves": tla_set(["decl", "fun", "arr", "class", "enum"] if q else ["expr", "decl", "break", "return", "fun", "arr", "class", "enum"]),
               "Unary": tla_set(["if", "while", "do", "switch", "for", "forin", "labeled"]), "MaxBlock": 1}
     r = vlib.generate_and_replay("IprStmtRenderMC", name, consts, exe, ("replay-render",), (), (), 6, 3000, "8g", "Spec", "EmitR")
     s, t = r["summary"], r["tlc"]
